@@ -861,6 +861,10 @@ class ListenerRequestHandler(BaseHTTPRequestHandler):
         methodname = tup_tree[1]['NAME']
         params = {}
         for name, obj in tup_tree[2]:
+            if name in params:
+                raise CIMXMLParseError(
+                    _format("Element {0!A} has duplicate parameter {1!A}",
+                            tup_tree[0], name))
             params[name] = obj
 
         return (msgid, methodname, params)
